@@ -104,3 +104,50 @@ Theorem C32_honest_accepted :
     (Some (peer_id pubkey H ser_pub (pub_of sk)), false).
 Proof. exact honest_accepted. Qed.
 Print Assumptions C32_honest_accepted.
+
+(* The secret of a session is unique to it BECAUSE the accepting end creates a
+   fresh handshake key per session (hypothesis NoDup of its keys; xs_inj: an
+   ideal key agreement + KDF gives different secrets for different key pairs):
+   the secrets of different sessions differ ... *)
+Theorem C32_fresh_keys_secrets_differ :
+  forall (eph peerpub : Type) (xs : eph -> peerpub -> bytes),
+  (forall s c s' c', xs s c = xs s' c' -> s = s' /\ c = c') ->
+  forall (l : list (eph * peerpub)) (i j : nat) (e1 e2 : bytes),
+  NoDup (map fst l) -> i <> j ->
+  nth_error (session_secrets eph peerpub xs l) i = Some e1 ->
+  nth_error (session_secrets eph peerpub xs l) j = Some e2 -> e1 <> e2.
+Proof. exact fresh_keys_secrets_differ. Qed.
+Print Assumptions C32_fresh_keys_secrets_differ.
+
+(* ... and a signature recorded in one session is refused in every other
+   session of that end, whatever handshake key the dialling side supplies
+   (or a SHA3 collision is returned). *)
+Theorem C32_replay_across_sessions_rejected :
+  forall (pubkey : Type) (H : bytes -> bytes) (parse_pub : bytes -> option pubkey)
+         (ser_pub : pubkey -> bytes) (verify : pubkey -> bytes -> bytes -> bool)
+         (priv : Type) (pub_of : priv -> pubkey) (sign : priv -> bytes -> bytes)
+         (eph peerpub : Type) (xs : eph -> peerpub -> bytes),
+  (forall sk h k h', verify k h' (sign sk h) = true <-> (k = pub_of sk /\ h' = h)) ->
+  (forall s c s' c', xs s c = xs s' c' -> s = s' /\ c = c') ->
+  forall (l : list (eph * peerpub)) (i j : nat) (e1 e2 : bytes) (sk : priv) (pub sig id : bytes),
+  NoDup (map fst l) -> i <> j ->
+  nth_error (session_secrets eph peerpub xs l) i = Some e1 ->
+  nth_error (session_secrets eph peerpub xs l) j = Some e2 ->
+  parse_sig sig = Some (sign sk (H e1)) ->
+  verify_signature pubkey H parse_pub ser_pub verify pub sig e2 = (Some id, false) ->
+  e1 <> e2 /\ H e1 = H e2.
+Proof. exact replay_across_sessions_rejected. Qed.
+Print Assumptions C32_replay_across_sessions_rejected.
+
+(* Without the freshness the statement fails: one accepting-side key for two
+   sessions, the dialling side supplies the same key again, both sessions have
+   the same secret and the recorded signature is accepted. *)
+Theorem C32_shared_server_key_refuted :
+  let l := [(5, 11); (5, 11)] in
+  ~ NoDup (map fst l) /\
+  exists e, nth_error (session_secrets N N ex_xs l) 0 = Some e /\
+            nth_error (session_secrets N N ex_xs l) 1 = Some e /\
+            let '(p', r) := on_sigreq N tH tparse tser tverify [9] (ex_peer e) (Msg [7] (ex_sig 7 e) []) in
+            (p_next p', p_closed p', p_id p', r) = (true, false, Some (peer_id N tH tser 7), Some true).
+Proof. exact shared_server_key_refuted. Qed.
+Print Assumptions C32_shared_server_key_refuted.
